@@ -296,12 +296,24 @@ def leaves(stmts) -> list[list]:
     return [stmts]
 
 
-def branch_plan(stmts) -> list[ast.expr]:
+def branch_plan(stmts) -> tuple[list[ast.stmt], list[ast.expr]]:
+    """-> (leading assignments of fresh locals that the key expressions may use, keys read in order)."""
+    stmts = list(stmts)
+    prelude = []
+    while (stmts and isinstance(stmts[0], ast.Assign) and len(stmts[0].targets) == 1
+           and isinstance(stmts[0].targets[0], ast.Name)):
+        nm = stmts[0].targets[0].id
+        if nm in ("alias", "fname", "packed_value", "unpacked_value", "has_default", "d", "value"):
+            raise Unsupported(f"key lookup branch reassigns {nm}")
+        for n in ast.walk(stmts[0].value):
+            if isinstance(n, ast.Name) and n.id not in ("alias", "fname") and n.id not in [a.targets[0].id for a in prelude]:
+                raise Unsupported(f"key expression depends on {n.id}")
+        prelude.append(stmts.pop(0))
     plans = [leaf_plan(l) for l in leaves(stmts)]
     dumps = {tuple(ast.dump(e) for e in p) for p in plans}
     if len(dumps) != 1:
         raise Unsupported("the code-shape variants of one branch read different keys")
-    return plans[0]
+    return prelude, plans[0]
 
 
 ALLOW = "self.parent.get_config().allow_deserialization_not_by_alias"
@@ -326,14 +338,14 @@ def gen_key_plan(module) -> str:
         for n in ast.walk(before):
             if isinstance(n, ast.Name) and isinstance(n.ctx, ast.Store) and n.id in ("alias", "fname"):
                 raise Unsupported("alias/fname reassigned before the key lookup")
-    t_plan = branch_plan(s.body)
-    e_plan = branch_plan(s.orelse)
+    t_pre, t_plan = branch_plan(s.body)
+    e_pre, e_plan = branch_plan(s.orelse)
     f = ast.FunctionDef(
         name="key_plan",
         args=ast.arguments(posonlyargs=[], args=[ast.arg("alias"), ast.arg("fname")], kwonlyargs=[], kw_defaults=[], defaults=[]),
         body=[ast.If(test=s.test,
-                     body=[ast.Return(value=ast.Tuple(elts=t_plan, ctx=ast.Load()))],
-                     orelse=[ast.Return(value=ast.Tuple(elts=e_plan, ctx=ast.Load()))])],
+                     body=t_pre + [ast.Return(value=ast.Tuple(elts=t_plan, ctx=ast.Load()))],
+                     orelse=e_pre + [ast.Return(value=ast.Tuple(elts=e_plan, ctx=ast.Load()))])],
         decorator_list=[], lineno=1)
     ast.fix_missing_locations(f)
     mod2 = ast.Module(body=list(module.body[:0]) + [f], type_ignores=[])
